@@ -47,7 +47,7 @@ def run_history(cfg, ops, oracle_cls, T, tmpdir=None, judged=None, keep_lab=Fals
         after = lab.snap()
         T.count('transitions')
         T.state(('s', _canon(after)))
-        key = tuple(map(tuple, done))
+        key = repr(done)        # ops may carry dicts (keyword settings): use the literal text as the key
         fresh = judged is None or key not in judged
         if judged is not None:
             judged.add(key)
